@@ -2742,3 +2742,19 @@ variant_multi('t-error-text-through-a-helper', ['C12', 'C13', 'C16', 'C07'], [
     ('rsocket/frame.py', "        return RSocketProtocolError(frame.error_code, data=frame.data.decode())\n\n    return RuntimeError(frame.data.decode('utf-8'))\n",
      "        return RSocketProtocolError(frame.error_code, data=_error_text(frame))\n\n    return RuntimeError(_error_text(frame))\n")],
     kind='twin')
+
+# C01.o no-op default call-backs must take what they are given
+variant_multi('b-default-on-next-call-back-takes-one-argument', ['C01', 'C10'], [
+    (DS, "        self._on_next = on_next\n", "        self._on_next = on_next or (lambda value: None)\n"),
+    (DS, "        if self._on_next is not None:\n            self._on_next(value, is_complete)", "        self._on_next(value, is_complete)")],
+    ('C01.o', 'DefaultSubscriber.on_next'))
+variant_multi('t-default-on-next-call-back-of-the-right-arity', ['C01', 'C10', 'C09'], [
+    (DS, "        self._on_next = on_next\n", "        self._on_next = on_next or (lambda value, is_complete=False: None)\n"),
+    (DS, "        if self._on_next is not None:\n            self._on_next(value, is_complete)", "        self._on_next(value, is_complete)")],
+    kind='twin')
+
+# C11.r only the close sequence delivers on_close
+variant('b-connection-error-call-back-also-closes', ['C11'], 'rsocket/request_handler.py',
+        "    async def on_connection_error(self, rsocket, exception: Exception):\n        pass\n",
+        "    async def on_connection_error(self, rsocket, exception: Exception):\n        await self.on_close(rsocket, exception)\n",
+        ('C11.r', 'on_connection_error'))
